@@ -333,7 +333,19 @@ def run(F, rep):
                 conds = [cnd for cnd, br, st2 in enclosing_conditions(g, r)]
                 subj_d = {x['d'] for cnd in conds for x in walk(cnd) if x.get('k') == 'Ref' and x.get('dk') in ('local',)}
                 subj_t = {render(x) for cnd in conds for x in walk(cnd) if x.get('k') == 'Call' and x.get('mc') and not x.get('opc') and len(x.get('c', [])) == 1}
-                unrelated = [x for x in later if not (any(y.get('k') == 'Ref' and y.get('d') in subj_d for y in walk(x)) or any(t_ in render(x) for t_ in subj_t))]
+                # locals that carry the tested thing further (an issue whose description is built from it): one statement that mentions both ties them
+                tied = set(subj_d)
+                changed_ = True
+                tail = top[k_ + 1:]
+                while changed_:
+                    changed_ = False
+                    for x in tail:
+                        for sub_ in ([x] if x.get('k') != 'Compound' else x.get('c', [])):
+                            ds = {y['d'] for y in walk(sub_) if y.get('k') == 'Ref' and y.get('dk') == 'local'} | {y['d'] for y in walk(sub_) if y.get('k') == 'Var'}
+                            if (ds & tied or any(t_ in render(sub_) for t_ in subj_t)) and not ds <= tied and sub_.get('k') not in ('If', 'For', 'RangeFor', 'While', 'Switch'):
+                                tied |= ds
+                                changed_ = True
+                unrelated = [x for x in later if not (any(y.get('k') == 'Ref' and y.get('d') in tied for y in walk(x)) or any(t_ in render(x) for t_ in subj_t))]
                 rep.check(not unrelated, 'C04.E1', '%s|return@%d' % (g.name, sum(1 for y in g.walk() if y.get('k') == 'Return' and y.get('l', 0) < r.get('l', 0))), g.where(r),
                           '%s returns silently when `%s`; %d later check(s) that have nothing to do with that test are skipped as well (first at line %s)' % (g.short, ' and '.join(render(c_)[:40] for c_ in conds), len(unrelated), unrelated[0].get('l') if unrelated else ''),
                           'only checks about the tested thing are skipped')
